@@ -435,6 +435,8 @@ def isnan(x):
     """NaN test that works on SymReal and on floats."""
     if isinstance(x, SymReal):
         return SymBool(x.nan)
+    if isinstance(x, (numpy.datetime64, numpy.timedelta64)):      # (timedelta64 is a numpy.integer subclass)
+        return bool(numpy.isnat(x))
     if isinstance(x, (SymInt, int, numpy.integer)):
         return False
     return bool(numpy.isnan(x))
@@ -458,6 +460,13 @@ def same(a, b):
             return SymBool(False)
         return SymBool(z3.Or(z3.And(a.nan, b.nan),
                              z3.And(z3.Not(a.nan), z3.Not(b.nan), a.v == b.v)))
+    if isinstance(a, (numpy.datetime64, numpy.timedelta64)) or isinstance(b, (numpy.datetime64, numpy.timedelta64)):
+        try:
+            if numpy.isnat(a) or numpy.isnat(b):
+                return bool(numpy.isnat(a) and numpy.isnat(b))
+        except TypeError:
+            return False
+        return bool(a == b)
     try:
         fa, fb = float(a), float(b)
     except (TypeError, ValueError):
